@@ -664,6 +664,15 @@ class RPFamily(Family):
                                       self.m_set(o, m, k, a))(k)
                          for k in RP_MODES}
         self.mutators["assign_embedding"] = self.m_embedding
+        self.mutators["assign_embedding_only"] = self.m_embedding_only
+        # after a bare assignment of the embedding the recurrence matrix
+        # still belongs to the old trajectory (by design, until the next
+        # setter): only what is computed from the embedding is compared
+        fresh = {"distance_matrix", ".N"}
+        for k in list(self.queries):
+            if k not in fresh:
+                self.queries[k] = (lambda f: lambda o, m: None if m.get(
+                    "stale_R") else f(o, m))(self.queries[k])
 
     def _val(self, m, mode, a):
         n = m["nstates"]
@@ -703,6 +712,13 @@ class RPFamily(Family):
         v = self._val(m, mode, a)
         getattr(o, RP_SETTERS[mode])(v)
         m["mode"], m["val"] = mode, v
+        m["stale_R"] = False
+
+    def m_embedding_only(self, o, m, a):
+        x2 = -np.roll(m["x"], 1 + int(a * 10) % 3) + 2 * m["x"].mean()
+        o.embedding = np.array(self.build(dict(m, x=x2)).embedding)
+        m["x"] = x2
+        m["stale_R"] = True
 
     def m_embedding(self, o, m, a):
         """Another trajectory is assigned through the public `embedding`
@@ -717,6 +733,7 @@ class RPFamily(Family):
         o.embedding = np.array(self.build(m2).embedding)
         m["x"] = x2
         getattr(o, RP_SETTERS[m["mode"]])(m["val"])
+        m["stale_R"] = False
 
 
 class SeqRPFamily(Family):
@@ -812,7 +829,8 @@ class JointFamily(RPFamily):
         RPFamily.__init__(self, "RecurrenceNetwork")
         self.kind = self.name = "JointRecurrenceNetwork"
         for k in ("set_local_recurrence_rate",
-                  "set_adaptive_neighborhood_size", "assign_embedding"):
+                  "set_adaptive_neighborhood_size", "assign_embedding",
+                  "assign_embedding_only"):
             self.mutators.pop(k, None)
         self.queries.pop("distance_matrix", None)
         self.queries.pop("white_vertline_dist", None)
@@ -1200,6 +1218,7 @@ def rp_cases(draw, kind):
     margs = {"set_" + k: a for k in modes}
     if kind != "JointRecurrenceNetwork":
         margs["assign_embedding"] = a
+        margs["assign_embedding_only"] = a
     c = {"family": kind, "x": x,
          "metric": draw(st.sampled_from(["supremum", "euclidean",
                                          "manhattan"])),
@@ -1430,6 +1449,7 @@ def _pair_bases():
         mm = {"set_" + k: [0.62, 0.27] for k in modes}
         if kind != "JointRecurrenceNetwork":
             mm["assign_embedding"] = [0.31, 0.77]
+            mm["assign_embedding_only"] = [0.52, 0.13]
         out.append((c, mm))
     out.append(({"family": "CrossRecurrencePlot", "x": x12, "y": y12[:9],
                  "metric": "supremum", "val": 0.3},
